@@ -12,8 +12,8 @@ Theorem C14_allocation_is_order_independent_up_to_renaming :
   forall ks ks' n rest rest' used free,
     Permutation ks ks' -> NoDup ks -> (forall k, In k ks -> ~ In k used) ->
     rest = repeat RFresh n -> rest' = repeat RFresh n ->
-    match engine false true (map RCarry ks ++ rest) used free,
-          engine false true (map RCarry ks' ++ rest') used free with
+    match engine false true None (map RCarry ks ++ rest) used free,
+          engine false true None (map RCarry ks' ++ rest') used free with
     | Ok o, Ok o' =>
         fresh_ids (map RCarry ks ++ rest) o = fresh_ids (map RCarry ks' ++ rest') o' /\
         Permutation (placed_ids o) (placed_ids o')
@@ -39,8 +39,8 @@ Print Assumptions C14_unit_property_slots_order_independent.
 
 (* requests without carried indices are served from the free list front to back, in every mode *)
 Theorem C14_fresh_ids_are_a_prefix_of_the_free_list :
-  forall b c reqs used free outs,
-    forallb (fun r => negb (is_carry r)) reqs = true -> engine b c reqs used free = Ok outs ->
+  forall b c rg reqs used free outs,
+    forallb (fun r => negb (is_carry r)) reqs = true -> engine b c rg reqs used free = Ok outs ->
     exists n, fresh_ids reqs outs = firstn n free.
 Proof. exact engine_no_carry_fresh. Qed.
 Print Assumptions C14_fresh_ids_are_a_prefix_of_the_free_list.
